@@ -290,6 +290,9 @@ fn check_c01<T: HLabel>(env: &mut Env, built: &Built<T>) {
     let abs = env.case.abs.clone();
     let cap = call_cap(&abs);
     for t in targets().iter().filter(|t| t.kind == QKind::SE) {
+        if env.ctx.out_of_time() {
+            return; // the time budget also bounds the work spent inside one (large) case
+        }
         let has = env.oracle.has_ext(t.sem);
         let n_ext = env.oracle.n_ext(t.sem);
         for enc in usable_encoders(env.ctx, env.exp_cost, t).iter() {
@@ -545,6 +548,9 @@ fn check_acceptance<T: HLabel>(env: &mut Env, built: &Built<T>, rng: &mut Rng) {
     for t in targets().iter().filter(|t| {
         t.kind != QKind::SE && kind.map(|k| k == t.kind).unwrap_or(true)
     }) {
+        if env.ctx.out_of_time() {
+            return;
+        }
         let encs = usable_encoders(env.ctx, env.exp_cost, t);
         let has = env.oracle.has_ext(t.sem);
         for (ei, enc) in encs.iter().enumerate() {
@@ -745,6 +751,9 @@ fn check_c07<T: HLabel>(env: &mut Env, built: &Built<T>, rng: &mut Rng) {
         }
     }
     for t in targets().iter().filter(|t| t.kind != QKind::SE) {
+        if env.ctx.out_of_time() {
+            return;
+        }
         // library-level property: each solver type under its own semantics only
         if t.sem != t.ty.sem() {
             continue;
